@@ -85,6 +85,14 @@ func (v *Vue) evalInclude(ctx VueContext, node *html.Node, vars map[string]any, 
 	// a second time would interpolate the substituted values as if they were template source.
 	// What follows the tag is evaluated like the rest of any template.
 	if len(compDom) > 0 && compDom[0].Type == html.ElementNode && compDom[0].Data == "template" {
+		// v-once on that tag: like on any other element, only its first instance is emitted
+		if helpers.HasAttr(compDom[0], "v-once") {
+			vSeenID := helpers.GetAttr(compDom[0], "v-once-id")
+			if ctx.seen[vSeenID] {
+				return v.evaluate(childCtx, compDom[1:], depth+1)
+			}
+			ctx.seen[vSeenID] = true
+		}
 		processedDom, err := v.evalTemplate(childCtx, compDom[:1], ctx.stack.EnvMap(), depth+1)
 		if err != nil {
 			return nil, fmt.Errorf("error in %s (included from %s): %w", name, ctx.FormatTemplateChain(), err)
